@@ -97,6 +97,34 @@ def run(ck):
             continue
         pairs.append(dict(a=files, b=b, top_a=top, top_b=top_b, rws=rws, origin=f"pair#{len(pairs) - n_corpus}"))
 
+    # dotted references whose head is shadowed by a nested message (names not unique): rename the
+    # file-scope definition / import, rename the nested one, move the nested one to file level
+    for i in range(fs.scaled(ck.n(9, 90))):
+        rng = random.Random(f"C12:shadow:{ck.seed}:{i}")
+        files, top, info = fg.head_shadow(rng, variant="message" if i % 3 else "import", py_safe=True)
+        a = copy.deepcopy(files)
+        what = frw.head_shadow_rewrite(files, info, ["rename_top", "rename_nested", "move_top"][(i // 3 + i) % 3])
+        pairs.append(dict(a=a, b=files, top_a=list(top), top_b=list(top), rws=[("head_shadow", what)],
+                          origin=f"head-shadow#{i}"))
+    # a literal array capacity against unparenthesised operator chains of equal value
+    for i in range(fs.scaled(ck.n(6, 60))):
+        rng = random.Random(f"C12:chain:{ck.seed}:{i}")
+        n = rng.choice([1, 2, 3, 5, 7, 8, 13])
+        chains = frw.equal_valued_chains(n, rng)
+        e = chains[0] if i % 2 == 0 else rng.choice(chains)
+        if i == 0:
+            n, e = 7, ["div", ["mul", ["int", 2], ["int", 7]], ["int", 2]]
+        body = [["field", None, ["arr", ["byte"], ["lit", n], False], "data", 1], ["field", None, ["single", ["uint", 7]], "t", 2]]
+        a = {"rootp.bitproto": [["proto", None, "rootp"], ["msg", None, "Mm", False, body]]}
+        b = copy.deepcopy(a)
+        kk = ["const", None, "KK", ["expr", ["int", e[1][2][1]]]] if (i % 4 == 2 and e[0] == "div" and e[1][0] == "mul") else None
+        if kk is not None:
+            e = ["div", ["mul", e[1][1], ["ref", ["KK"]]], e[2]]
+        b["rootp.bitproto"][1][4][0][2][2] = ["ref", ["NN"]]
+        b["rootp.bitproto"][1:1] = ([kk] if kk else []) + [["const", None, "NN", ["expr", e]]]
+        pairs.append(dict(a=a, b=b, top_a=["Mm"], top_b=["Mm"], rws=[("const_expr", f"capacity {n} written as an operator chain")],
+                          origin=f"chain#{i}"))
+
     jobs = []
     meta = []
     nv = ck.n(4, 6)
@@ -139,8 +167,12 @@ def run(ck):
                                  json.dumps(replay)[:2500]))
             continue
         if shape(ra["tree"]) != shape(rb["tree"]):
-            ck.broken(Broken(f"tie T2: the rewrite {p['rws']} did not preserve the resolved shape of the message "
-                             f"(harness / rewrite library) in {p['origin']}", json.dumps(replay)[:2500]))
+            # the compiler resolved the two schemas to different layouts (widths / capacities / structure):
+            # no value can correspond; on the unchanged tree this never happens for the rewrites of the list
+            replay.update(shape_a=shape(ra["tree"]), shape_b=shape(rb["tree"]))
+            n_pair_bad += 1
+            ck.violation(f"rewrite {[w for w, _ in p['rws']]} changed the resolved layout of the message, hence its bytes "
+                         f"({'; '.join(w for _, w in p['rws'])})", replay, found_input=True)
             continue
         defs = (f"Definition a_{pi} : files := {fg.coq_files(p['a'])}.\n"
                 f"Definition b_{pi} : files := {fg.coq_files(p['b'])}.\n"
